@@ -216,7 +216,7 @@ func (w *WorkerPool) decreasePendingTasks() {
 // hasWork returns true as long as the dispatcher has to serve the queue: the WorkerPool is running, or accepted tasks are
 // still pending (they are in the queue, on their way into it, or being executed).
 func (w *WorkerPool) hasWork() bool {
-	return w.IsRunning() || w.PendingTasksCounter.Get() > 0
+	return w.IsRunning() || verifHasWorkGap(w) || w.PendingTasksCounter.Get() > 0
 }
 
 // startDispatcher starts the dispatcher that dispatches tasks to the workers.
